@@ -366,6 +366,8 @@ def main():
     gen_all = translate.generate_all(ctx.build("base"))
     uses_gen = getattr(mod, "USES_GENERATED", False)
     gen_info = gen_all if uses_gen else {}
+    if uses_gen and getattr(mod, "GEN_SELECT", None):     # a slice with its own translator output (keys <sel>_obligations / <sel>_failures)
+        gen_info = {"obligations": gen_all.get(mod.GEN_SELECT + "_obligations", []), "failures": gen_all.get(mod.GEN_SELECT + "_failures", [])}
     gen_failures = gen_info.get("failures", []) if gen_info else []
     targets = [props_mod, "driver"]
     rc, out, dt = lake_build(targets)
